@@ -128,6 +128,8 @@ inductive IR where
   | toSet (a : IR)
   | toDict (a : IR)
   | dictGet (d k : IR)                              -- `Apply index` on a dict
+  | applyFn (fn : String) (args : IR) (ret : HType) -- `Apply fn () ret args…` for a function of the engine's registry (array / set / dict
+                                                    -- families); `args` is a `tcons` list.  TYPING ONLY (C36): `eval` gives the failure value
   -- aggregation context
   | streamAgg (x : Name) (a q : IR)               -- `StreamAgg`: child 1 is a new block whose AGG scope is eval scope + `x`
   | aggLet (x : Name) (v b : IR)                  -- `AggLet … False`: `v` lives in the agg scope, binds `x` in the agg scope of `b`
@@ -299,6 +301,9 @@ def explodeEnv (x : Name) (σ : Env) : Except Val (List Val) → List Env
   | .ok vs => vs.map fun w => (x, w) :: σ
   | .error _ => []
 
+/-- registry functions are not evaluated by the model: their outcome is the failure value (which inhabits every type) -/
+def applyVal (_ : Val) : Val := .err
+
 /-- `StreamScan`: every intermediate accumulator, the zero first -/
 def scanVals (f : Val → Val → Val) : Val → List Val → List Val
   | s, [] => [s]
@@ -387,6 +392,7 @@ def eval (ρ : Env) (A : List Env) : IR → Val
       | some kvs => .dict kvs
       | none => .err
     | .error o => o
+  | .applyFn _ a _ => applyVal (eval ρ A a)
   | .dictGet d _ => match eval ρ A d with
     | .dict kvs => match kvs with
       | [] => .err
@@ -413,7 +419,7 @@ def aggFree : IR → Bool
   | .streamAgg .. | .aggLet .. | .aggFilter .. | .agg .. | .aggExplode .. | .aggGroupBy .. => false
   | .i32 _ | .i64 _ | .f32 _ | .f64 _ | .str _ | .bool _ | .na _ | .ref _ | .anil _ | .snil | .tnil => true
   | .cast a _ | .ascribe a _ | .isNA a | .un _ a | .arrayLen a | .toArray a | .toStream a | .getField a _ | .getTupleElement a _
-  | .toSet a | .toDict a => aggFree a
+  | .toSet a | .toDict a | .applyFn _ a _ => aggFree a
   | .bin _ a b | .cmp _ a b | .let_ _ a b | .acons a b | .arrayRef a b | .streamMap _ a b | .streamFilter _ a b
   | .scons _ a b | .insertField a _ b | .tcons a b | .dictGet a b => aggFree a && aggFree b
   | .ite a b c | .streamFold _ _ a b c | .streamScan _ _ a b c => aggFree a && aggFree b && aggFree c
@@ -428,7 +434,7 @@ def fv : IR → List Name
   | .i32 _ | .i64 _ | .f32 _ | .f64 _ | .str _ | .bool _ | .na _ | .anil _ | .snil | .tnil => []
   | .ref x => [x]
   | .cast a _ | .ascribe a _ | .isNA a | .un _ a | .arrayLen a | .toArray a | .toStream a | .getField a _ | .getTupleElement a _
-  | .toSet a | .toDict a => fv a
+  | .toSet a | .toDict a | .applyFn _ a _ => fv a
   | .bin _ a b | .cmp _ a b | .acons a b | .arrayRef a b | .scons _ a b | .insertField a _ b | .tcons a b | .dictGet a b =>
     fv a ++ fv b
   | .ite a b c => fv a ++ fv b ++ fv c
@@ -444,7 +450,7 @@ def fv : IR → List Name
 def fva : IR → List Name
   | .i32 _ | .i64 _ | .f32 _ | .f64 _ | .str _ | .bool _ | .na _ | .anil _ | .snil | .tnil | .ref _ => []
   | .cast a _ | .ascribe a _ | .isNA a | .un _ a | .arrayLen a | .toArray a | .toStream a | .getField a _ | .getTupleElement a _
-  | .toSet a | .toDict a => fva a
+  | .toSet a | .toDict a | .applyFn _ a _ => fva a
   | .bin _ a b | .cmp _ a b | .acons a b | .arrayRef a b | .scons _ a b | .insertField a _ b | .tcons a b | .dictGet a b
   | .let_ _ a b | .streamMap _ a b | .streamFilter _ a b => fva a ++ fva b
   | .ite a b c | .streamFold _ _ a b c | .streamScan _ _ a b c => fva a ++ fva b ++ fva c
@@ -495,6 +501,7 @@ inductive WellScoped : List Name → Option (List Name) → IR → Prop
   | tcons : WellScoped Γ Δ e → WellScoped Γ Δ rest → WellScoped Γ Δ (.tcons e rest)
   | getTupleElement : WellScoped Γ Δ o → WellScoped Γ Δ (.getTupleElement o i)
   | toSet : WellScoped Γ Δ a → WellScoped Γ Δ (.toSet a)
+  | applyFn : WellScoped Γ Δ a → WellScoped Γ Δ (.applyFn f a t)
   | toDict : WellScoped Γ Δ a → WellScoped Γ Δ (.toDict a)
   | dictGet : WellScoped Γ Δ d → WellScoped Γ Δ k → WellScoped Γ Δ (.dictGet d k)
   /-- `StreamAgg._compute_type`: `a` in `(env, agg_env)`, the query in `(env, env + x)` -/
@@ -515,7 +522,7 @@ def scopeOk (Γ : List Name) (Δ : Option (List Name)) : IR → Bool
   | .i32 _ | .i64 _ | .f32 _ | .f64 _ | .str _ | .bool _ | .na _ | .anil _ | .snil | .tnil => true
   | .ref x => decide (x ∈ Γ)
   | .cast a _ | .ascribe a _ | .isNA a | .un _ a | .arrayLen a | .toArray a | .toStream a | .getField a _ | .getTupleElement a _
-  | .toSet a | .toDict a => scopeOk Γ Δ a
+  | .toSet a | .toDict a | .applyFn _ a _ => scopeOk Γ Δ a
   | .bin _ a b | .cmp _ a b | .acons a b | .arrayRef a b | .scons _ a b | .insertField a _ b | .tcons a b | .dictGet a b =>
     scopeOk Γ Δ a && scopeOk Γ Δ b
   | .ite a b c => scopeOk Γ Δ a && scopeOk Γ Δ b && scopeOk Γ Δ c
@@ -548,7 +555,7 @@ def names : IR → List Name
   | .ref y => [y]
   | .i32 _ | .i64 _ | .f32 _ | .f64 _ | .str _ | .bool _ | .na _ | .anil _ | .snil | .tnil => []
   | .cast a _ | .ascribe a _ | .isNA a | .un _ a | .arrayLen a | .toArray a | .toStream a | .getField a _ | .getTupleElement a _
-  | .toSet a | .toDict a | .agg _ a => names a
+  | .toSet a | .toDict a | .applyFn _ a _ | .agg _ a => names a
   | .bin _ a b | .cmp _ a b | .acons a b | .arrayRef a b | .scons _ a b | .insertField a _ b | .tcons a b | .dictGet a b
   | .aggFilter a b | .aggGroupBy a b => names a ++ names b
   | .ite a b c => names a ++ names b ++ names c
@@ -567,7 +574,7 @@ def usesAgg : IR → Bool
   | .streamAgg _ a _ => usesAgg a
   | .i32 _ | .i64 _ | .f32 _ | .f64 _ | .str _ | .bool _ | .na _ | .ref _ | .anil _ | .snil | .tnil => false
   | .cast a _ | .ascribe a _ | .isNA a | .un _ a | .arrayLen a | .toArray a | .toStream a | .getField a _ | .getTupleElement a _
-  | .toSet a | .toDict a => usesAgg a
+  | .toSet a | .toDict a | .applyFn _ a _ => usesAgg a
   | .bin _ a b | .cmp _ a b | .let_ _ a b | .acons a b | .arrayRef a b | .streamMap _ a b | .streamFilter _ a b
   | .scons _ a b | .insertField a _ b | .tcons a b | .dictGet a b => usesAgg a || usesAgg b
   | .ite a b c | .streamFold _ _ a b c | .streamScan _ _ a b c => usesAgg a || usesAgg b || usesAgg c
@@ -604,6 +611,7 @@ def subst (x : Name) (v : IR) : IR → IR
   | .tcons e rest => .tcons (subst x v e) (subst x v rest)
   | .getTupleElement o i => .getTupleElement (subst x v o) i
   | .toSet a => .toSet (subst x v a)
+  | .applyFn f a t => .applyFn f (subst x v a) t
   | .toDict a => .toDict (subst x v a)
   | .dictGet d k => .dictGet (subst x v d) (subst x v k)
   | .streamAgg y a q => .streamAgg y (subst x v a) q
@@ -621,7 +629,7 @@ def subst (x : Name) (v : IR) : IR → IR
 def substOk (x : Name) (F FA : List Name) (dep : Bool) : IR → Bool
   | .ref _ | .i32 _ | .i64 _ | .f32 _ | .f64 _ | .str _ | .bool _ | .na _ | .anil _ | .snil | .tnil => true
   | .cast a _ | .ascribe a _ | .isNA a | .un _ a | .arrayLen a | .toArray a | .toStream a | .getField a _ | .getTupleElement a _
-  | .toSet a | .toDict a => substOk x F FA dep a
+  | .toSet a | .toDict a | .applyFn _ a _ => substOk x F FA dep a
   | .bin _ a b | .cmp _ a b | .acons a b | .arrayRef a b | .scons _ a b | .insertField a _ b | .tcons a b | .dictGet a b =>
     substOk x F FA dep a && substOk x F FA dep b
   | .ite a b c => substOk x F FA dep a && substOk x F FA dep b && substOk x F FA dep c
@@ -664,6 +672,7 @@ def substA (x : Name) (v : IR) : IR → IR
   | .tcons e rest => .tcons (substA x v e) (substA x v rest)
   | .getTupleElement o i => .getTupleElement (substA x v o) i
   | .toSet a => .toSet (substA x v a)
+  | .applyFn f a t => .applyFn f (substA x v a) t
   | .toDict a => .toDict (substA x v a)
   | .dictGet d k => .dictGet (substA x v d) (substA x v k)
   | .streamAgg y a q => .streamAgg y (substA x v a) q
@@ -674,18 +683,19 @@ def substA (x : Name) (v : IR) : IR → IR
   | .aggGroupBy c b => .aggGroupBy (subst x v c) (substA x v b)
 
 /-- `substA x v t` means what it should (`F = fv v`, `FA = fva v`, `dep = usesAgg v`): in every aggregation-scope child the
-value-scope substitution is fine (`substOk`), and no `AggLet` on the way rebinds a variable of `v` -/
+value-scope substitution is fine (`substOk`), and no `AggLet` / `AggExplode` on the way to an occurrence of `x` rebinds a variable of `v`
+(a binder whose body does not read `x` from the aggregation scope is harmless) -/
 def substAOk (x : Name) (F FA : List Name) (dep : Bool) : IR → Bool
   | .ref _ | .i32 _ | .i64 _ | .f32 _ | .f64 _ | .str _ | .bool _ | .na _ | .anil _ | .snil | .tnil => true
   | .cast a _ | .ascribe a _ | .isNA a | .un _ a | .arrayLen a | .toArray a | .toStream a | .getField a _ | .getTupleElement a _
-  | .toSet a | .toDict a => substAOk x F FA dep a
+  | .toSet a | .toDict a | .applyFn _ a _ => substAOk x F FA dep a
   | .bin _ a b | .cmp _ a b | .acons a b | .arrayRef a b | .scons _ a b | .insertField a _ b | .tcons a b | .dictGet a b
   | .let_ _ a b | .streamMap _ a b | .streamFilter _ a b => substAOk x F FA dep a && substAOk x F FA dep b
   | .ite a b c | .streamFold _ _ a b c | .streamScan _ _ a b c =>
     substAOk x F FA dep a && substAOk x F FA dep b && substAOk x F FA dep c
   | .streamAgg _ a _ => substAOk x F FA dep a
   | .aggLet y e b | .aggExplode y e b =>
-    substOk x F FA dep e && (decide (y = x) || (decide (y ∉ F) && substAOk x F FA dep b))
+    substOk x F FA dep e && (decide (y = x) || decide (x ∉ fva b) || (decide (y ∉ F) && substAOk x F FA dep b))
   | .aggFilter c b | .aggGroupBy c b => substOk x F FA dep c && substAOk x F FA dep b
   | .agg _ a => substOk x F FA dep a
 
@@ -724,6 +734,7 @@ def inlineCse : IR → IR
   | .tcons e rest => .tcons (inlineCse e) (inlineCse rest)
   | .getTupleElement o i => .getTupleElement (inlineCse o) i
   | .toSet a => .toSet (inlineCse a)
+  | .applyFn f a t => .applyFn f (inlineCse a) t
   | .toDict a => .toDict (inlineCse a)
   | .dictGet d k => .dictGet (inlineCse d) (inlineCse k)
   | .streamAgg y a q => .streamAgg y (inlineCse a) (inlineCse q)
@@ -742,7 +753,7 @@ def inlineOk : IR → Bool
       (!isCse x || substAOk x (fv (inlineCse v)) (fva (inlineCse v)) (usesAgg (inlineCse v)) (inlineCse b))
   | .ref _ | .i32 _ | .i64 _ | .f32 _ | .f64 _ | .str _ | .bool _ | .na _ | .anil _ | .snil | .tnil => true
   | .cast a _ | .ascribe a _ | .isNA a | .un _ a | .arrayLen a | .toArray a | .toStream a | .getField a _ | .getTupleElement a _
-  | .toSet a | .toDict a | .agg _ a => inlineOk a
+  | .toSet a | .toDict a | .applyFn _ a _ | .agg _ a => inlineOk a
   | .bin _ a b | .cmp _ a b | .acons a b | .arrayRef a b | .scons _ a b | .insertField a _ b | .tcons a b | .dictGet a b
   | .streamMap _ a b | .streamFilter _ a b | .streamAgg _ a b | .aggFilter a b | .aggExplode _ a b | .aggGroupBy a b =>
     inlineOk a && inlineOk b
@@ -760,7 +771,7 @@ def countRef (x : Name) : IR → Nat
   | .ref y => if y = x then 1 else 0
   | .i32 _ | .i64 _ | .f32 _ | .f64 _ | .str _ | .bool _ | .na _ | .anil _ | .snil | .tnil => 0
   | .cast a _ | .ascribe a _ | .isNA a | .un _ a | .arrayLen a | .toArray a | .toStream a | .getField a _ | .getTupleElement a _
-  | .toSet a | .toDict a | .agg _ a => countRef x a
+  | .toSet a | .toDict a | .applyFn _ a _ | .agg _ a => countRef x a
   | .bin _ a b | .cmp _ a b | .acons a b | .arrayRef a b | .scons _ a b | .insertField a _ b | .tcons a b | .dictGet a b
   | .let_ _ a b | .streamMap _ a b | .streamFilter _ a b | .streamAgg _ a b | .aggLet _ a b | .aggFilter a b
   | .aggExplode _ a b | .aggGroupBy a b =>
@@ -772,7 +783,7 @@ def cseBinders : IR → List (Name × Nat)
   | .let_ x v b | .aggLet x v b => (if isCse x then [(x, countRef x b)] else []) ++ cseBinders v ++ cseBinders b
   | .ref _ | .i32 _ | .i64 _ | .f32 _ | .f64 _ | .str _ | .bool _ | .na _ | .anil _ | .snil | .tnil => []
   | .cast a _ | .ascribe a _ | .isNA a | .un _ a | .arrayLen a | .toArray a | .toStream a | .getField a _ | .getTupleElement a _
-  | .toSet a | .toDict a | .agg _ a => cseBinders a
+  | .toSet a | .toDict a | .applyFn _ a _ | .agg _ a => cseBinders a
   | .bin _ a b | .cmp _ a b | .acons a b | .arrayRef a b | .scons _ a b | .insertField a _ b | .tcons a b | .dictGet a b
   | .streamMap _ a b | .streamFilter _ a b | .streamAgg _ a b | .aggFilter a b | .aggExplode _ a b | .aggGroupBy a b =>
     cseBinders a ++ cseBinders b
@@ -783,7 +794,7 @@ def refUnderIf (x : Name) : IR → Bool
   | .ite c t e => refUnderIf x c || decide (0 < countRef x t) || decide (0 < countRef x e)
   | .ref _ | .i32 _ | .i64 _ | .f32 _ | .f64 _ | .str _ | .bool _ | .na _ | .anil _ | .snil | .tnil => false
   | .cast a _ | .ascribe a _ | .isNA a | .un _ a | .arrayLen a | .toArray a | .toStream a | .getField a _ | .getTupleElement a _
-  | .toSet a | .toDict a | .agg _ a => refUnderIf x a
+  | .toSet a | .toDict a | .applyFn _ a _ | .agg _ a => refUnderIf x a
   | .bin _ a b | .cmp _ a b | .acons a b | .arrayRef a b | .scons _ a b | .insertField a _ b | .tcons a b | .dictGet a b
   | .let_ _ a b | .streamMap _ a b | .streamFilter _ a b | .streamAgg _ a b | .aggLet _ a b | .aggFilter a b
   | .aggExplode _ a b | .aggGroupBy a b =>
@@ -796,7 +807,7 @@ def branchLocal : IR → Bool
   | .let_ x v b | .aggLet x v b => (!isCse x || !refUnderIf x b) && branchLocal v && branchLocal b
   | .ref _ | .i32 _ | .i64 _ | .f32 _ | .f64 _ | .str _ | .bool _ | .na _ | .anil _ | .snil | .tnil => true
   | .cast a _ | .ascribe a _ | .isNA a | .un _ a | .arrayLen a | .toArray a | .toStream a | .getField a _ | .getTupleElement a _
-  | .toSet a | .toDict a | .agg _ a => branchLocal a
+  | .toSet a | .toDict a | .applyFn _ a _ | .agg _ a => branchLocal a
   | .bin _ a b | .cmp _ a b | .acons a b | .arrayRef a b | .scons _ a b | .insertField a _ b | .tcons a b | .dictGet a b
   | .streamMap _ a b | .streamFilter _ a b | .streamAgg _ a b | .aggFilter a b | .aggExplode _ a b | .aggGroupBy a b =>
     branchLocal a && branchLocal b
@@ -830,6 +841,7 @@ def abstractAt (x : Name) (v : IR) (F : List Name) : IR → IR
   | .getField a f => if IR.getField a f = v then .ref x else .getField (abstractAt x v F a) f
   | .getTupleElement a i => if IR.getTupleElement a i = v then .ref x else .getTupleElement (abstractAt x v F a) i
   | .toSet a => if IR.toSet a = v then .ref x else .toSet (abstractAt x v F a)
+  | .applyFn f a t => if IR.applyFn f a t = v then .ref x else .applyFn f (abstractAt x v F a) t
   | .toDict a => if IR.toDict a = v then .ref x else .toDict (abstractAt x v F a)
   | .bin op a b => if IR.bin op a b = v then .ref x else .bin op (abstractAt x v F a) (abstractAt x v F b)
   | .cmp op a b => if IR.cmp op a b = v then .ref x else .cmp op (abstractAt x v F a) (abstractAt x v F b)
